@@ -720,13 +720,6 @@ class StateEngine(object):
                         {"StateMachineArn": state_machine_arn}
                     )
 
-                """
-                Tidy up self.branch_metadata for current execution_arn.
-                If ExecutionSucceeded we just remove, as we don't have to cater
-                for outstanding terminated branch messages subsequently arriving.
-                """
-                if execution_arn in self.branch_metadata:
-                    del self.branch_metadata[execution_arn]
         
         if self.execution_metrics:
             duration = (execution_detail["stopDate"] - 
@@ -749,12 +742,27 @@ class StateEngine(object):
         branch events, so it must come after the terminal record has been
         written and the terminal notification has been sent.
         """
-        if execution_failed and execution_arn in self.branch_metadata:
-            # The execution has failed, so all of its branches are terminated.
-            for results in self.branch_metadata[execution_arn].results.values():
-                if "terminated" not in results:
-                    results["terminated"] = "0:" + str(len(results["results"]))
-            self.check_pending_results(execution_arn)
+        if execution_arn in self.branch_metadata:
+            all_results = self.branch_metadata[execution_arn].results
+            if execution_failed or any("terminated" in r for r in all_results.values()):
+                """
+                The execution has failed, or it has succeeded after the
+                failure of a Map or Parallel state was caught or retried. All
+                of its branches are finished with now, but events, replies and
+                timers of the terminated ones might still turn up and must be
+                recognised as such rather than start the branch afresh.
+                """
+                for results in all_results.values():
+                    if "terminated" not in results:
+                        results["terminated"] = "0:" + str(len(results["results"]))
+                self.check_pending_results(execution_arn)
+            else:
+                """
+                If ExecutionSucceeded and no branch was ever terminated we just
+                remove, as there are no outstanding terminated branch messages
+                that could subsequently arrive.
+                """
+                del self.branch_metadata[execution_arn]
 
     def update_execution_history(
             self, state_machine, execution_arn, update_type, details
